@@ -972,6 +972,21 @@ def _x_dict(draw, og):
     return {"args": [P(a)], "kw": {}}
 
 
+@extra("construct-unnamed")
+def _x_unnamed(draw, og):
+    """construction from exponents without names: the columns are q0, q1, ... by position"""
+    D = draw(st.integers(1, 3))
+    n = draw(st.integers(1, 3))
+    rows = draw(st.lists(st.lists(st.integers(0, 2), min_size=D, max_size=D), min_size=n, max_size=n, unique_by=tuple))
+    unused = draw(st.sampled_from([None, None, 0, D - 1]))
+    if unused is not None and D > 1:
+        rows = [[0 if i == unused else v for i, v in enumerate(r)] for r in rows]
+        rows = [list(t) for t in dict.fromkeys(tuple(r) for r in rows)]
+    coefs = [draw(st.integers(1, 5)) for _ in rows]
+    return {"args": [], "kw": {"rows": rows, "coefs": coefs,
+                               "how": draw(st.sampled_from(["dict", "attributes", "from_attributes", "clean"]))}}
+
+
 @extra("construct-nested-list")
 def _x_nested(draw, og):
     a = og.array(draw, min_ndim=1, max_ndim=2)
@@ -1099,6 +1114,15 @@ def invoke_extra(name, args, kw):
         return numpoly.symbols(kw["names"])
     if name == "construct-dict":
         return numpoly.polynomial(p.todict(), names=p.names)
+    if name == "construct-unnamed":
+        rows, coefs, how = kw["rows"], kw["coefs"], kw["how"]
+        if how == "dict":
+            return numpoly.polynomial({tuple(r): c for r, c in zip(rows, coefs)})
+        if how == "attributes":
+            return numpoly.polynomial_from_attributes(exponents=rows, coefficients=coefs)
+        if how == "from_attributes":
+            return numpoly.ndpoly.from_attributes(exponents=rows, coefficients=coefs)
+        return numpoly.clean_attributes(numpoly.ndpoly.from_attributes(exponents=rows, coefficients=coefs))
     if name == "construct-nested-list":
         items = [x for x in p] if kw["depth"] == 1 or p.ndim < 2 else [[y for y in x] for x in p]
         return numpoly.polynomial(items)
